@@ -749,7 +749,8 @@ func main() {
 	}
 
 	// ---- S3: parameters before and after q, quoted strings, whitespace, line splits ----
-	pres := [][]string{nil, {"level=1"}, {"charset=utf-8"}, {"xq=0"}, {`a="x,y"`}, {`a="q=0"`}}
+	pres := [][]string{nil, {"level=1"}, {"charset=utf-8"}, {"xq=0"}, {`a="x,y"`}, {`a="q=0"`}, {`b="x\"y"`}, {`b="x\\"`}} // the last two: quoted pairs \" and \\
+	offers3p := []string{"a/b", "a/c", "a/b; charset=utf-8"}                                                               // quick parameter sweep: c/d, matched by */* only, adds nothing here
 	posts := [][]string{nil, {"ext=1"}, {"ext"}, {`ext="x,y"`}, {`ext="q=0"`}}
 	withParams := func(seq []Elem, ws, nLines int) bool {
 		for _, e := range seq {
@@ -761,9 +762,9 @@ func main() {
 	}
 	s3 := func() {
 		if !thorough {
-			typeSweep(r, "parameters", false, headers(elemProduct([]string{"a/b", "a/c", "*/*"}, []string{"", "0", "0.5"}, pres, posts), 1, 2, []int{0, 1, 3}, true, withParams), offerLists(offers4, 2), defs)
+			typeSweep(r, "parameters", false, headers(elemProduct([]string{"a/b", "a/c", "*/*"}, []string{"", "0", "0.5"}, pres, posts), 1, 2, []int{0, 1, 3}, true, withParams), offerLists(offers3p, 2), defs)
 		} else {
-			pres = append(pres, []string{`b="x\"y"`}, []string{"level=1", "charset=utf-8"}, []string{`a="x;q=0"`})
+			pres = append(pres, []string{"level=1", "charset=utf-8"}, []string{`a="x;q=0"`})
 			posts = append(posts, []string{"ext=1", "e2=2"}, []string{`ext="x\"y"`})
 			typeSweep(r, "parameters", false, headers(elemProduct([]string{"a/b", "a/c", "a/*", "*/*"}, []string{"", "0", "0.5"}, pres, posts), 1, 2, []int{0, 1, 2, 3}, true, withParams), offerLists(offers4, 2), defs)
 			typeSweep(r, "parameters-3-ranges", false, headers(elemProduct([]string{"a/b", "a/c", "*/*"}, []string{"", "0", "0.5"}, [][]string{nil, {"level=1"}, {"xq=0"}, {`a="x,y"`}}, [][]string{nil, {"ext=1"}}), 3, 3, []int{1}, true, withParams), offerLists(offers4, 2), defs)
@@ -821,7 +822,7 @@ func main() {
 	}
 	hh = append(append(hh, s1.expand()...), s2.expand()...)
 	// verbatim values through the handler: totality of the whole chain
-	for _, s := range enum.Strings([]string{"a", "/", "*", ";", ",", "=", "q", "0", "\"", " "}, 3) {
+	for _, s := range enum.Strings([]string{"a", "/", "*", ";", ",", "=", "q", "0", "\"", " ", "\xe9"}, 3) {
 		hh = append(hh, hdr{lines: [][]Elem{{{Range: s}}}, ws: -1})
 	}
 	handlerSweep(r, "handler", configs, hh)
@@ -829,13 +830,17 @@ func main() {
 	// ---- S6: totality over verbatim bytes ----
 	alpha := []string{"a", "/", "*", ";", ",", "=", "q", ".", "0", "1", "\"", "\\", " "}
 	r.Set("raw_alphabet", alpha)
+	// wide alphabet: octets outside US-ASCII (0x80, 0xFF, a two-byte UTF-8 character), controls, other separators
+	wide := append(append([]string{}, alpha...), "\x80", "\xff", "\u00e9", "\t")
 	if !thorough {
 		rawSweep(r, "raw-bytes", rawSpace{alpha, 5, -1})
 		rawSweep(r, "raw-two-lines", rawSpace{alpha, 2, 2})
+		r.Set("raw_alphabet_wide", wide)
+		rawSweep(r, "raw-bytes-wide", rawSpace{wide, 4, -1})
 	} else {
 		rawSweep(r, "raw-bytes", rawSpace{alpha, 6, -1})
 		rawSweep(r, "raw-two-lines", rawSpace{alpha, 3, 2})
-		wide := append(append([]string{}, alpha...), "\t", "\x80", "(", "A", "\x00", "\r", "\n")
+		wide = append(wide, "(", "A", "\x00", "\r", "\n")
 		r.Set("raw_alphabet_wide", wide)
 		rawSweep(r, "raw-bytes-wide", rawSpace{wide, 4, -1})
 	}
